@@ -255,6 +255,20 @@ def job_cbspl(seed, nbreak=5):
     return obs
 
 
+def job_spline_deriv(which, seed):
+    """for every spline type CalculateDerivative == d/dr Calculate: the C12 spline jobs, restricted to their derivative obligations"""
+    from props import C12
+    fn = {'cubic': C12.job_cubic_interval, 'akima': C12.job_akima, 'linear': C12.job_linspline}[which]
+    out = []
+    for o in fn(seed):
+        if o['id'].endswith('/deriv') or o['id'].endswith('/canary'):
+            o['id'] = o['id'].replace('C12.', 'C07.spline.', 1)
+            out.append(o)
+    if not any(o['id'].endswith('/deriv') for o in out):
+        raise core.Undecided('vacuity: no spline derivative obligation generated for ' + which)
+    return out
+
+
 def collect(obs):
     seen = set()
     for o in obs:
@@ -269,7 +283,7 @@ def run(tier, seed, only=None):
     jobs = [(job_interaction, ('IBond', 2, seed)), (job_interaction, ('IAngle', 3, seed)), (job_interaction, ('IDihedral', 4, seed, True)), (job_interaction, ('IDihedral', 4, seed, False)),
             (job_potential, ('PotentialFunctionLJ126', PF + 'potentialfunctionlj126.cc', 2, seed)),
             (job_potential, ('PotentialFunctionLJG', PF + 'potentialfunctionljg.cc', 5, seed)),
-            (job_cbspl, (seed,))]
+            (job_cbspl, (seed,)), (job_spline_deriv, ('cubic', seed)), (job_spline_deriv, ('akima', seed)), (job_spline_deriv, ('linear', seed))]
     if only:
         import re
         jobs = [j for j in jobs if re.search(only, str(j[1][0]) + j[0].__name__)]
